@@ -10,6 +10,7 @@ from vlib import contracts, tilegen
 
 PROPERTY = "C15"
 LEVEL = "exploration"
+OPTIMIZED_SAMPLE = (10, 150)  # cases repeated under python -O (quick, thorough)
 JOBS = 16
 CASE_TIMEOUT = 900
 RULE = (
